@@ -626,7 +626,9 @@ def h_repartition(lens, Q):
             return True, 'partition lengths %s repartitioned to stops %s: new partitions cover %s, expected %s ([start, length])' % (lens, sv, got, want), payload
         return False, 'native run agrees (%s)' % got, payload
     return mdischarge(m, 'IrregularlyPartitionedArray::repartition lens=%s Q=%d' % (','.join(map(str, lens)), Q), obls,
-                      [('a partition is cut', z3.And(okp, z3.Or([nv[j] != s_ for j in range(Q) for s_ in [sum(lens[:k + 1]) for k in range(P)]][:1] + [z3.BoolVal(False)])))], replay=replay,
+                      # (with one new partition whose only possible stop is also the first old stop nothing can be cut: the twin is then 'accepted')
+                      [('a partition is cut', z3.And(okp, z3.Or([nv[j] != s_ for j in range(Q) for s_ in [sum(lens[:k + 1]) for k in range(P)]][:1] + [z3.BoolVal(False)])))
+                       if not (Q == 1 and sum(lens) == sum(lens[:1])) else ('the new partitioning is accepted', okp)], replay=replay,
                       prefer=[v <= total + 2 for v in nv],
                       extra=dict(bounds='old partition lengths %s concrete (case split), %d new stops symbolic' % (lens, Q)))
 
